@@ -84,6 +84,7 @@ type Op struct {
 	PauseMS   int    `json:"pause_ms,omitempty"`   // pause between Next calls
 	ScanClose bool   `json:"scan_close,omitempty"` // hrpc.CloseScanner option
 	TR        string `json:"tr,omitempty"`         // gets/scans: "" = time range [nonce, max), "to" = [0, nonce), "none" = no time range (gets; attributed by row)
+	Filter    bool   `json:"filter,omitempty"`     // scans: built with the run's shared hrpc.Filters option value (a page filter that lets everything pass)
 	Abandon   int    `json:"abandon,omitempty"`    // stop using the scanner after this many Next calls: neither Next nor Close is called again
 	// sleep
 	MS  int     `json:"ms,omitempty"`
